@@ -418,11 +418,20 @@ type promCfg struct {
 	cb      string
 }
 
+// the int->int operators for which lean/RoModel/Drivers/Prom.lean (`stageOf`) has a gated-stage model
+var promModelled = map[string]bool{}
+
+func init() {
+	for _, n := range strings.Fields("Clamp DefaultIfEmpty DefaultIfEmptyWithContext Distinct DistinctBy ElementAt ElementAtOrDefault EndWith Filter Find First Head IgnoreElements Last Map MapErr MapTo MaterializeDematerialize Max Min OnErrorReturn Reduce Scan Serialize Skip SkipLast SkipWhile StartWith Sum Tail Take TakeLast TakeWhile Tap TapOnFinalize TapOnSubscribe ThrowIfEmpty") {
+		promModelled[n] = true
+	}
+}
+
 // every (operator, parameters, variant, callback) of the int->int catalogue subset
 func promOpConfigs(r *rand.Rand) []promElem {
 	var out []promElem
 	for _, spec := range opSpecs {
-		if !spec.chain {
+		if !spec.chain || !promModelled[spec.name] {
 			continue
 		}
 		for _, variant := range spec.variants {
